@@ -126,18 +126,25 @@ pub fn prop(tier: Tier, seed: u64) -> Prop {
     // ---- exactly one matching dimension: equals the line-by-line 1-D resize
     let al2: Vec<Alg> = vec![Alg::Nearest, Alg::Conv(F::Lanczos3), Alg::Conv(F::Box), Alg::Conv(F::Mitchell), Alg::Interp(F::Bilinear), Alg::SS(F::CatmullRom, 2), Alg::SS(F::Gaussian, 1)];
     let n2: u32 = tier.pick(5, 7);
-    let dims2 = vec![n2 as u64, n2 as u64, wmax as u64, al2.len() as u64, 2, 2];
+    // placement of the region inside its parent: (margin before, margin after) on the matching axis
+    // and on the resampled axis; variant 0 is the whole image without a crop box
+    const PLACE: [((u32, u32), (u32, u32)); 5] = [((0, 0), (0, 0)), ((1, 1), (0, 0)), ((3, 0), (0, 0)), ((2, 1), (1, 1)), ((5, 2), (0, 2))];
+    let dims2 = vec![n2 as u64, n2 as u64, wmax as u64, al2.len() as u64, 2, 2, PLACE.len() as u64];
     let (d2, a2, b2) = (dims2.clone(), al2.clone(), bes.clone());
     p.spaces.push(Space::new("one matching dimension: (W,H) x other destination extent x algorithm x axis x alpha (x 13 types x back-ends inside)", product(&dims2), move |idx, ctx| {
-        let mut d = [0usize; 6];
+        let mut d = [0usize; 7];
         decode(idx, &d2, &mut d);
         let (w, h, other, alg, axis_x, alpha) = (d[0] as u32 + 1, d[1] as u32 + 1, d[2] as u32 + 1, a2[d[3]], d[4] == 0, d[5] == 1);
+        let ((mb, ma), (rb, ra)) = PLACE[d[6]];
+        // margins in image coordinates
+        let ((lx, rx), (ty, by)) = if axis_x { ((mb, ma), (rb, ra)) } else { ((rb, ra), (mb, ma)) };
+        let cropped = d[6] != 0;
         // axis_x: the width matches (no horizontal resampling), the height changes
         let (dw, dh) = if axis_x { (w, other) } else { (other, h) };
         if (dw, dh) == (w, h) {
             return;
         }
-        ctx.sample(|| json!({"image": [w, h], "dst": [dw, dh], "alg": format!("{:?}", alg), "matching_dimension": if axis_x { "width" } else { "height" }, "alpha": alpha}));
+        ctx.sample(|| json!({"region": [w, h], "parent": [w + lx + rx, h + ty + by], "crop_origin": [lx, ty], "dst": [dw, dh], "alg": format!("{:?}", alg), "matching_dimension": if axis_x { "width" } else { "height" }, "alpha": alpha}));
         if ctx.describe_only {
             return;
         }
@@ -146,7 +153,7 @@ pub fn prop(tier: Tier, seed: u64) -> Prop {
                 continue;
             }
             let ck = pt.ck();
-            let src = content(pt, w, h, 1, seed ^ idx);
+            let src = content(pt, w + lx + rx, h + ty + by, 1, seed ^ idx);
             for &be in b2.iter() {
                 if ck == CK::I32 && be != BE::None {
                     continue;
@@ -154,15 +161,28 @@ pub fn prop(tier: Tier, seed: u64) -> Prop {
                 let mut rz = new_resizer(be);
                 let mut o = Opts::new(alg);
                 o.alpha = alpha;
+                if cropped {
+                    o.cx = Some(Crop1 { start: lx as f64, len: w as f64 });
+                    o.cy = Some(Crop1 { start: ty as f64, len: h as f64 });
+                }
                 let Ok(full) = resize_raw(&mut rz, &src, dw, dh, &o) else { continue };
                 ctx.ops += 1;
+                // the line alone keeps the crop along the resampled axis and is one pixel thick
+                let mut ol = o;
+                if cropped {
+                    if axis_x {
+                        ol.cx = Some(Crop1 { start: 0.0, len: 1.0 });
+                    } else {
+                        ol.cy = Some(Crop1 { start: 0.0, len: 1.0 });
+                    }
+                }
                 // line by line: each column (row) alone as an image of width (height) 1
                 let lines = if axis_x { w } else { h };
                 let mut bad: Option<(u32, u32, usize, f64, f64)> = None;
                 'l: for k in 0..lines {
-                    let line = if axis_x { Raw::from_fn(pt, 1, h, |_, y, c| src.get(k, y, c)) } else { Raw::from_fn(pt, w, 1, |x, _, c| src.get(x, k, c)) };
+                    let line = if axis_x { Raw::from_fn(pt, 1, h + ty + by, |_, y, c| src.get(lx + k, y, c)) } else { Raw::from_fn(pt, w + lx + rx, 1, |x, _, c| src.get(x, ty + k, c)) };
                     let (lw, lh) = if axis_x { (1, dh) } else { (dw, 1) };
-                    let Ok(lo) = resize_raw(&mut rz, &line, lw, lh, &o) else { continue };
+                    let Ok(lo) = resize_raw(&mut rz, &line, lw, lh, &ol) else { continue };
                     ctx.ops += 1;
                     for j in 0..(if axis_x { dh } else { dw }) {
                         for c in 0..pt.ncomp() {
@@ -178,17 +198,17 @@ pub fn prop(tier: Tier, seed: u64) -> Prop {
                 ctx.traces += lines as u64;
                 if let Some((k, j, c, a, b)) = bad {
                     ctx.violation(format!("C12|one matching dimension|{}|alpha={}|{:?}|mixing along the matching dimension", alg_class(alg), alpha, pt), || {
-                        json!({"image": [w, h], "dst": [dw, dh], "alg": format!("{:?}", alg), "alpha": alpha, "pixel": format!("{:?}", pt), "backend": format!("{:?}", be), "line": k, "sample": j, "channel": c, "full_resize": a, "line_alone": b})
+                        json!({"region": [w, h], "parent": [w + lx + rx, h + ty + by], "crop_origin": [lx, ty], "dst": [dw, dh], "alg": format!("{:?}", alg), "alpha": alpha, "pixel": format!("{:?}", pt), "backend": format!("{:?}", be), "line": k, "sample": j, "channel": c, "full_resize": a, "line_alone": b})
                     });
                 }
                 ctx.outcome(fnv(full.bytes()));
-                ctx.class(mix(mix(pt.idx() as u64 + 300, be as u64), mix(d[3] as u64, (axis_x as u64) * 2 + alpha as u64)));
+                ctx.class(mix(mix(pt.idx() as u64 + 300, be as u64), mix(d[3] as u64 * 8 + d[6] as u64, (axis_x as u64) * 2 + alpha as u64)));
             }
         }
         ctx.nontrivial += 1;
     }).isolated());
 
-    p.rule = "same size: every image size up to WxW x 36 algorithms (Nearest, 7 filters x {Convolution, Interpolation, SuperSampling m=1,2,3}) x alpha on/off x every integer sub-rectangle (all of them for W,H<=5) x 13 pixel types with rotating back-ends, tag and non-premultiplied contents: the destination must be a byte copy of the region; one matching dimension: sizes up to N^2 x the other extent 1..W x 7 algorithms x both axes x alpha: the result must equal the resize of each line taken alone (ints exact, floats 2 ulps)".into();
+    p.rule = "same size: every image size up to WxW x 36 algorithms (Nearest, 7 filters x {Convolution, Interpolation, SuperSampling m=1,2,3}) x alpha on/off x every integer sub-rectangle (all of them for W,H<=5) x 13 pixel types with rotating back-ends, tag and non-premultiplied contents: the destination must be a byte copy of the region; one matching dimension: region sizes up to N^2 x the other extent 1..W x 7 algorithms x both axes x alpha x 5 placements of the region in its parent (no crop box; integer crop boxes with margins 1/1, 3/0, 2/1 and 5/2 along the matching axis, two of them with margins along the resampled axis too): the result must equal the resize of each line taken alone (ints exact, floats 2 ulps)".into();
     p.bounds = json!({"W": wmax, "N": n2});
     p.assumptions = vec![];
     p
